@@ -65,6 +65,8 @@ StInt(c) == CASE c = "S0" -> Success [] c = "P0" -> Pending0 [] c = "P1" -> Pend
               [] c = "DSNO" -> NoStatusCode [] c = "BAD" -> BadTypeCode
               [] c \in {"NOPAIR", "OOR"} -> IF ExcCode = -1 THEN BadTypeCode ELSE ExcCode   \* undocumented: reference answers like an exception
 HasOptional(c) == c = "DSF"          \* the status dataset carries ErrorComment etc.
+\* (the status data sets DSP / DSF also carry a Message ID Being Responded To of their own: not a status element - the responses
+\*  answer the request whatever the handler's data set says, C20_Ids)
 DsClasses == {"ds", "none", "obj", "unenc"}
 SubClasses == {"S", "W", "F", "X"}    \* sub-operation outcome: success, warning, failure, exception/no reply
 
